@@ -347,7 +347,11 @@ func runMulti(c *runner.Ctx, k int) {
 		c.Seen("multi_fragment", shape)
 	}
 	c.Seen("multi_protected_tracks", fmt.Sprintf("%d of %d", len(protTracks), n))
-	c.Seen("multi_encrypted_moov_pssh_layout", cencgen.PsshNeighbourhood(encInit))
+	lay := cencgen.PsshNeighbourhood(encInit)
+	c.Seen("multi_encrypted_moov_pssh_layout", lay)
+	if strings.Contains(lay, "separated") {
+		c.Count("encrypted_moov_with_pssh_boxes_separated_by_another_box", 1)
+	}
 	countRotation(c, "multi_", rotate, nil, &decRot)
 
 	// ---- baseline: the merged clear file after the decryption side's encode ----
